@@ -152,10 +152,48 @@ def _norm_digit(t):
                 spans.append(n.position)
         walk(tree)
     except Exception:
-        return _DIGID.sub(lambda m: '_' + m.group(1), t)
+        # the compiler rejects: the positions where its identifier regex
+        # matched a digit-initial token during the failing parse (e.g. the '0'
+        # of "reference a as0:a;", lexed as alias '0' after the keyword 'as')
+        spans = sorted(_digit_ident_matches(pa, t))
+        if not spans:
+            return _DIGID.sub(lambda m: '_' + m.group(1), t)
     for a in sorted(spans, reverse=True):
         t = t[:a] + ' _' + t[a:]
     return t
+
+
+def _digit_ident_matches(pa, t):
+    """positions at which the compiler's identifier regexes matched a token
+    starting with a digit while (unsuccessfully) parsing t"""
+    import arpeggio
+    hits = set()
+    rules, seen = [], set()
+
+    def collect(r):
+        if id(r) in seen:
+            return
+        seen.add(id(r))
+        if isinstance(r, arpeggio.RegExMatch) and r.to_match in (r"\w+", r"\w+(\.\w+)?"):
+            rules.append(r)
+        for ch in getattr(r, 'nodes', []):
+            collect(ch)
+    collect(pa.parser_model)
+    for r in rules:
+        def wrapped(parser, _r=r):
+            res = type(_r)._parse(_r, parser)
+            if res is not None and re.match(r'\d', str(res.value)):
+                hits.add(res.position)
+            return res
+        r._parse = wrapped
+    try:
+        pa.parse(t)
+    except Exception:
+        pass
+    finally:
+        for r in rules:
+            del r._parse
+    return hits
 
 
 def _trig_flags(inp):
@@ -364,7 +402,7 @@ def main():
     chk = Check(PROP, 'model_checking')
     quick = tier() == 'quick'
     W = 5 if quick else 8
-    templates = TEMPLATES if quick else TEMPLATES + THOROUGH_EXTRA
+    templates = TEMPLATES + THOROUGH_EXTRA
     budget = 12
     timeout_ms = 60000 if quick else 300000
     items = []
